@@ -84,6 +84,18 @@ class Ctx:
         rules = set(rules)
         funcs = set(funcs) if funcs is not None else None
         files = set(files) if files is not None else None
+        if files is not None:
+            # a listed file that was split: the private modules (`_impl.py`) it re-exports from belong to it
+            by_rel = {m.relpath: m for m in self.prog.modules.values()}
+            for rel in list(files):
+                m = by_rel.get(rel)
+                if m is None:
+                    continue
+                bases = {b[1] for b in m.imports.values() if b[0] == "symbol"} | set(m.star_imports)
+                for base in bases:
+                    src = self.prog.modules.get(base)
+                    if src is not None and src.name.split(".")[-1].startswith("_") and src.name.rsplit(".", 1)[0] == m.name.rsplit(".", 1)[0]:
+                        files.add(src.relpath)
         classes = set(classes) if classes is not None else None
         out = []
         for s in self.interp.sites.values():
